@@ -835,6 +835,19 @@ Example C05_fault_closing2_nonvacuous :
     [SBrace; SMClose MParen; SMClose MBracket; SEnd [122;113]] = true.
 Proof. vm_compute. repeat split. Qed.
 
+(** the same with [ok_doc2 cx d] as the hypothesis, for documents that end with whitespace in
+    contexts none of whose specials sequences contains a backslash or a closing brace
+    ([specials_plain]; see [C06_prefix_closing2_ws_partial], proofs in [Proofs/Prefix2Follow.v]) *)
+From PLV Require Import Proofs.Prefix2Follow.
+Theorem C05_fault_closing2_doc_ws_partial : forall cx d c g,
+  ok_doc2 cx d = true -> d_trail2 d <> [] -> specials_plain cx = true -> stray_wf c ->
+  exists e,
+    parse_top (unparse2 d ++ stray_text c ++ g) false cx (walker_state cx)
+    = PErr e (length (unparse2 d) + length (stray_text c))%nat
+    /\ pe_pos e = Some (length (unparse2 d)) /\ pe_what e = stray_what c
+    /\ pe_nodes e = Some (gen_nodelist 0 (fst (tree_of2 cx (walker_state cx) 0 d))).
+Proof. exact fault_closing2_doc_ws. Qed.
+
 (** ** at an item boundary of a NESTED body (proofs in [Proofs/Fault2Path.v],
     [Proofs/Fault2Inject.v]).  The left context is a path of frames, outermost first
     ([lframe2]): [LGrp2 before ws] = the extended items [before], whitespace, [{];
@@ -956,3 +969,4 @@ Print Assumptions C05_fault_closing2_doc_partial.
 Print Assumptions C05_fault_closing2_nested_partial.
 Print Assumptions C05_fault_closing2_delimited_arg_partial.
 Print Assumptions C05_error_propagates2_partial.
+Print Assumptions C05_fault_closing2_doc_ws_partial.
